@@ -137,8 +137,9 @@ def analyse(case, out):
 class Check(DiffCheck):
     id = 'C01'
     needs_libphoton = True
-    coq_dirs = ['Base', 'C04', 'Sched', 'C01']
-    coq_targets = ['C01/C01_Excl.vo', 'C01/C01_Coop.vo']
+    coq_dirs = ['Base', 'C04', 'Sched', 'E3', 'C01']
+    coq_targets = ['C01/C01_Excl.vo', 'C01/C01_I2.vo', 'C01/C01_Handoff.vo', 'C01/C01_Finding.vo',
+                   'C01/C01_Spin_Proofs.vo', 'C01/C01_Coop.vo']
     properties_v = 'C01/C01_Properties.v'
     extract_v = 'C01/C01_Extract.v'
     model_module = 'C01_model'
